@@ -70,6 +70,7 @@ struct Case {
     sched: Option<Vec<usize>>,
     seed: u64,
     reps: usize,
+    freeze: Option<(usize, usize)>,
 }
 
 fn on_parse(s: &str) -> Option<u64> {
@@ -132,6 +133,7 @@ fn read_cases(input: &mut dyn BufRead) -> Vec<Case> {
                     sched: None,
                     seed: 0,
                     reps: 1,
+                    freeze: None,
                 })
             }
             "env" => {
@@ -172,6 +174,7 @@ fn read_cases(input: &mut dyn BufRead) -> Vec<Case> {
             }
             "seed" => cur.as_mut().unwrap().seed = w[1].parse().unwrap(),
             "reps" => cur.as_mut().unwrap().reps = w[1].parse().unwrap(),
+            "freeze" => cur.as_mut().unwrap().freeze = Some((w[1].parse().unwrap(), w[2].parse().unwrap())),
             "sched" => {
                 let c = cur.as_mut().unwrap();
                 c.sched = match w[1] {
@@ -484,7 +487,7 @@ where
         Some(s) => (sched::Mode::Replay, s.clone()),
         None => (sched::Mode::Random, vec![]),
     };
-    sched::install(mode, case.nthreads, sched_v, case.seed, 4000);
+    sched::install(mode, case.nthreads, sched_v, case.seed, 4000, case.freeze);
     {
         let it = &it;
         std::thread::scope(|s| {
